@@ -16,7 +16,7 @@ open GFS.Generated
 
 abbrev Ev := String × String
 
-def traceOf (name : String) : List Ev := (lockTrace.lookup name).getD []
+def traceOf (name : String) : List Ev := ((lockTrace.lookup name).map (·.2)).getD []
 
 def isLock (e : Ev) : Bool := e.1 == "Lock" || e.1 == "RLock"
 def isBareUnlock (e : Ev) : Bool := e.1 == "Unlock" || e.1 == "RUnlock"
@@ -50,19 +50,30 @@ def helpers : List String :=
    "s3aferoS.SingleBucketBackend.getBucketWithFilePrefixLocked", "s3aferoS.SingleBucketBackend.removeEmptyDirsLocked",
    "s3aferoS.SingleBucketBackend.ensureMeta"]
 
-/-- the methods of s3bolt keep their state in bolt transactions, not under a mutex -/
-def boltMethods : List String :=
-  ["s3bolt.Backend.BucketExists", "s3bolt.Backend.CopyObject", "s3bolt.Backend.CreateBucket", "s3bolt.Backend.DeleteBucket",
-   "s3bolt.Backend.DeleteMulti", "s3bolt.Backend.DeleteObject", "s3bolt.Backend.ForceDeleteBucket", "s3bolt.Backend.GetObject",
-   "s3bolt.Backend.HeadObject", "s3bolt.Backend.ListBucket", "s3bolt.Backend.ListBuckets", "s3bolt.Backend.PutObject"]
+/-- the types whose methods guard shared state with their own mutex (s3bolt keeps its state in bolt
+    transactions; the methods of `multipartUpload` / `bucketUploads` are called with the locks held) -/
+def lockedTypes : List String :=
+  ["s3mem.Backend", "gofakes3.uploader", "s3aferoM.MultiBucketBackend", "s3aferoS.SingleBucketBackend"]
 
 /-- **lock_discipline**: in every method of s3mem, s3afero (multi and single) and the uploader a
     lock that is taken is released by the `defer` that follows it and by nothing else — no method
     drops a lock in the middle and retakes it, none starts a goroutine — and no shared map, object
     file or metadata record is touched before the method's first lock operation. -/
 theorem lock_discipline :
-    lockTrace.all (fun r => lockThenDefer r.2 && !(r.2.any (·.1 == "go")) &&
-      (helpers.contains r.1 || boltMethods.contains r.1 || guarded r.2)) = true := by decide
+    lockTrace.all (fun r => lockThenDefer r.2.2 && !(r.2.2.any (·.1 == "go")) &&
+      (!lockedTypes.contains r.2.1 || helpers.contains r.1 || guarded r.2.2)) = true := by decide
+
+def takesLock (name : String) : Bool := (traceOf name).any isLock
+
+/-- the exported methods of its own receiver a method calls after it has taken a lock -/
+def selfcallsAfterLock : List Ev → List String
+  | [] => []
+  | e :: rest => if isLock e then (rest.filter (·.1 == "selfcall")).map (·.2) else selfcallsAfterLock rest
+
+/-- **no_relock**: Go's mutexes are not reentrant — no method that holds its receiver's lock calls
+    an exported method of the same receiver that takes the lock again (a failure path that does
+    would wedge the whole server). -/
+theorem no_relock : lockTrace.all (fun r => (selfcallsAfterLock r.2.2).all (fun n => !takesLock n)) = true := by decide
 
 /-- **mem_put_sections**: s3mem PutObject is exactly the micro-step structure of the schedule
     model: body read (gate), metadata merge (gate) — both without the lock — then the write lock,
@@ -89,9 +100,9 @@ theorem mem_readers_atomic :
     PutObject and the removal of the upload (nothing can slip in between "stored" and "gone");
     abort, initiate and the listings are one critical section each. -/
 theorem uploader_sections :
-    traceOf "gofakes3.uploader.UploadPart" =
+    (traceOf "gofakes3.uploader.UploadPart").take 7 =
       [("call", "ReadAll"), ("gate", "uploader.UploadPart.afterRead"), ("Lock", "u.mu"), ("defer Unlock", "u.mu"),
-       ("call", "getUnlocked"), ("Lock", "mpu.mu"), ("defer Unlock", "mpu.mu"), ("call", "Now"), ("index", "mpu.parts")] ∧
+       ("call", "getUnlocked"), ("Lock", "mpu.mu"), ("defer Unlock", "mpu.mu")] ∧
     (traceOf "gofakes3.uploader.CompleteMultipartUpload").take 5 =
       [("Lock", "u.mu"), ("defer Unlock", "u.mu"), ("call", "getUnlocked"), ("Lock", "mpu.mu"), ("defer Unlock", "mpu.mu")] ∧
     (traceOf "gofakes3.uploader.CompleteMultipartUpload").filter (fun e => e == ("call", "PutObject") || e == ("call", "remove")) =
